@@ -1,9 +1,11 @@
 //! C14 — proof data is packed in allocation order and every input matters.
 //!
-//! Enumerated (fault_enumeration, engine E4): every configuration of the E4 catalogue (quick: its
-//! quick cross-section; thorough: all) plus extra shapes defined below (1–6 tables, more queries,
-//! cap heights 0–2, arities 2–8, final polynomials of length 1–4, no PoW, ZK with preprocessed
-//! data and lookups, degree-3 constraints). For each configuration, three clauses:
+//! Enumerated (fault_enumeration, engine E4): every configuration of the E4 catalogue (both tiers:
+//! all of it, the quick cross-section first) plus the extra shapes defined below (1–6 tables, more
+//! queries, cap heights 0–2, arities 2–8, final polynomials of length 1–4, no PoW, ZK with
+//! preprocessed data and lookups, degree-3 constraints). Quick perturbs every site by +1; thorough
+//! also sets it to 0 and to its neighbour's value and probes every extension coefficient.
+//! For each configuration, three clauses:
 //!
 //! (1) LENGTHS. The vectors produced by the repository's `*VerifierInputsBuilder::pack_values`
 //!     have exactly `circuit.public_flat_len` / `circuit.private_flat_len` elements.
@@ -390,12 +392,12 @@ fn check_config(
             Some(got) if *got != expected => sink.violation(
                 format!("{cfg}|{class}|misplaced"),
                 format!(
-                    "{cfg}: target for {} (expr {}, slot {:?}) received {} instead of its own element {:?}",
+                    "{cfg}: target for {} (expr {}, slot {:?}) received {} instead of its own element {}",
                     p.path,
                     p.expr,
                     p.widx,
                     describe(got, &by_tag, &all),
-                    expected
+                    describe(&expected, &by_tag, &all)
                 ),
                 replay("misplaced"),
             ),
